@@ -649,3 +649,120 @@ func (c *Ctx) ArgSource(fname string, m IM, idx int) IM {
 	}
 	return func(in ssa.Instruction) bool { return set[in] }
 }
+
+// HeldMutex (K13): every access (FieldAddr) to one of the field paths happens
+// with the mutex held by the accessing function: a Lock on the mutex (rendered
+// address, e.g. "p0.mu") dominates the access with no plain Unlock in
+// between. Functions matching exempt (constructors, documented "must hold"
+// helpers whose callers are checked separately) are skipped.
+func (c *Ctx) HeldMutex(key string, fields []string, mu string, exempt []string) {
+	rule := "K13 HeldMutex"
+	desc := "every access to " + strings.Join(fields, ", ") + " is made with " + mu + " held"
+	why := "unsynchronised access to state shared between FUSE/HTTP/replication goroutines is a data race: a torn or stale read of exactly the state the property is about"
+	want := map[string]bool{}
+	for _, f := range fields {
+		want[strings.TrimSuffix(f, "[]")] = true
+	}
+	var rx []*regexp.Regexp
+	for _, e := range exempt {
+		rx = append(rx, regexp.MustCompile("^(?:"+pat(e)+")$"))
+	}
+	isLock := func(name string) IM {
+		return func(in ssa.Instruction) bool {
+			cc := callCommon(in)
+			if cc == nil || c.P.CalleeName(cc) != name {
+				return false
+			}
+			if _, isDefer := in.(*ssa.Defer); isDefer {
+				return false
+			}
+			return len(cc.Args) > 0 && strings.TrimPrefix(c.P.Render(cc.Args[0]), "&") == mu
+		}
+	}
+	lock, unlock := isLock("sync.(*Mutex).Lock"), isLock("sync.(*Mutex).Unlock")
+	n := 0
+	for _, fn := range c.P.SrcFuncs() {
+		if !c.inScope(fn, nil) {
+			continue
+		}
+		name := c.P.FuncName(fn)
+		skip := false
+		for _, r := range rx {
+			if r.MatchString(c.P.FuncName(topFunc(fn))) {
+				skip = true
+			}
+		}
+		if skip {
+			continue
+		}
+		access := func(in ssa.Instruction) bool {
+			fa, ok := in.(*ssa.FieldAddr)
+			return ok && want[fieldPathOf(fa)]
+		}
+		acc := Instrs(fn, access)
+		if len(acc) == 0 {
+			continue
+		}
+		n += len(acc)
+		s := &Search{P: c.P, Fn: fn, Avoid: lock, Tgt: access}
+		if f := s.Run(); f != nil {
+			c.fail(key, rule, desc, why, fmt.Sprintf("access at %s reachable from the entry of %s without %s.Lock()", c.where(f.Instr), name, mu), n)
+			return
+		}
+		if ul := Instrs(fn, unlock); len(ul) > 0 {
+			s2 := &Search{P: c.P, Fn: fn, From: ul, Avoid: lock, Tgt: access}
+			if f := s2.Run(); f != nil {
+				c.fail(key, rule, desc, why, fmt.Sprintf("access at %s reachable after %s.Unlock() in %s", c.where(f.Instr), mu, name), n)
+				return
+			}
+		}
+	}
+	if n == 0 {
+		c.fail(key, rule, desc, why, "no access site found (field renamed?)", 0)
+		return
+	}
+	c.ok(key, rule, desc, n)
+}
+
+// OnlyGuards (K2 dual): the target is reached under NO other branch
+// condition than the allowed ones - every branch fact on every feasible path
+// from entry to a target matches one of allowed. An added or narrowed
+// condition in front of an effect that must be unconditional fails.
+func (c *Ctx) OnlyGuards(key, fname string, target IM, allowed []*Guard, min int, desc, why string) {
+	rule := "K2 OnlyGuards (path enumeration)"
+	fn := c.F(fname)
+	if !c.need(key, rule, desc, fn, fname) {
+		return
+	}
+	var bad string
+	n, over := c.P.EnumPaths(fn, target, 20000, func(facts []PathFact, trace []*ssa.BasicBlock, at ssa.Instruction) {
+		if bad != "" {
+			return
+		}
+		for _, f := range facts {
+			ok := false
+			for _, g := range allowed {
+				if g.Val == f.Val && g.rx.MatchString(f.Cond) {
+					ok = true
+				}
+			}
+			if !ok {
+				bad = fmt.Sprintf("target %s is reached only under the additional condition %s=%v; path %s", c.where(at), f.Cond, f.Val, c.P.TraceString(trace))
+				return
+			}
+		}
+	})
+	if over {
+		c.undecided(key, rule, desc, "more than 20000 paths")
+		return
+	}
+	if bad != "" {
+		c.fail(key, rule, desc, why, bad, n)
+		return
+	}
+	if n < min {
+		c.fail(key, rule, desc, why, fmt.Sprintf("%d feasible path(s) to the target, expected >= %d", n, min), n)
+		return
+	}
+	c.ok(key, rule, desc, n)
+}
